@@ -1,9 +1,9 @@
 SPECIFICATION Spec
 CONSTANTS Nib = {0, 1, 15}
           KeyLen = 2
-          Vals = {10, 331}
+          Vals = {281, 291}
           Pad = 0
           MaxKeys = 2
           EmitRows = TRUE
-INVARIANTS CharacterInv MoreInv ProofInv NoProofInv Emit
+INVARIANTS CharacterInv MoreInv ProofInv NoProofInv AlgInv Emit
 CHECK_DEADLOCK FALSE
